@@ -333,7 +333,7 @@ def _portfolio(text, timeout_s, value_names, solvers=("z3old", "z3new", "cvc5"))
     return result
 
 
-def check(text, value_names=(), fast_ms=3000, slow_s=60, crosscheck=False):
+def check(text, value_names=(), fast_ms=3000, slow_s=60, crosscheck=False, tag=""):
     """decide satisfiability of the asserted text.  returns (verdict, model, info)"""
     t0 = time.time()
     STATS["queries"] += 1
@@ -357,4 +357,6 @@ def check(text, value_names=(), fast_ms=3000, slow_s=60, crosscheck=False):
     dt = time.time() - t0
     STATS["time_s"] += dt
     STATS["by_solver"][used] = STATS["by_solver"].get(used, 0) + 1
+    if dt > 2.0:
+        STATS.setdefault("slow", []).append((round(dt, 1), tag, used, verdict))
     return verdict, model, {"solver": used, "time_s": dt}
